@@ -385,3 +385,98 @@ func checkPairedAssignment(c *Ctx, p *Prog, fn *ssa.Function, rule, owner, on, o
 	}
 	c.Check(same, rule, key, p.pos(fn.Pos()), fmt.Sprintf("fallback for %s under %v; fallback for %s under %v", on, sortedKeys(a), off, sortedKeys(b)))
 }
+
+// checkResolvedStyle: a cell whose style is StyleDefault is painted in the
+// screen's style.  After that fallback every component handed to the backend
+// must come from the resolved value; a use of the style as GetContent returned
+// it (other than the test against StyleDefault and the merge itself) paints a
+// default-styled cell with the wrong component.
+func checkResolvedStyle(c *Ctx, p *Prog, fn *ssa.Function, rule string) {
+	short := fn.RelString(fn.Pkg.Pkg)
+	var raw ssa.Value
+	eachInstr(fn, func(in ssa.Instruction) {
+		if ex, ok := in.(*ssa.Extract); ok && ex.Index == 2 {
+			if call, ok := ex.Tuple.(*ssa.Call); ok && strings.HasSuffix(calleeName(&call.Call), "CellBuffer).GetContent") {
+				raw = ex
+			}
+		}
+	})
+	if raw == nil {
+		c.Undecided(rule, short+":resolved-style", p.pos(fn.Pos()), "style result of GetContent not found")
+		return
+	}
+	bad := ""
+	nUses := 0
+	var visit func(v ssa.Value, viaCell bool)
+	seen := map[ssa.Value]bool{}
+	visit = func(v ssa.Value, viaCell bool) {
+		if seen[v] {
+			return
+		}
+		seen[v] = true
+		for _, r := range referrers(v) {
+			switch x := r.(type) {
+			case *ssa.DebugRef:
+			case *ssa.BinOp:
+				if x.Op == token.EQL || x.Op == token.NEQ {
+					continue // the test against StyleDefault
+				}
+				bad += "used in " + x.String() + "; "
+			case *ssa.Phi:
+				continue // the merge with the screen style: its users use the resolved value
+			case *ssa.Store:
+				// spilled into a local cell (captured by a closure / address taken): follow the cell's
+				// loads only up to the point where the fallback stores into the same cell
+				if x.Val == v {
+					if al, ok := x.Addr.(*ssa.Alloc); ok {
+						fallback := false
+						for _, r2 := range referrers(al) {
+							if st2, ok := r2.(*ssa.Store); ok && st2 != x && st2.Addr == ssa.Value(al) {
+								fallback = true
+							}
+						}
+						if fallback {
+							continue // the cell is the resolved variable
+						}
+					}
+					nUses++
+					bad += fmt.Sprintf("stored unresolved at %s; ", p.pos(x.Pos()))
+				}
+			default:
+				nUses++
+				if in, ok := r.(ssa.Instruction); ok {
+					bad += fmt.Sprintf("the style as returned by GetContent is used at %s (%T) without the StyleDefault fallback; ", p.pos(in.Pos()), r)
+				}
+			}
+		}
+	}
+	visit(raw, false)
+	c.Check(bad == "", rule, short+":resolved-style", p.pos(fn.Pos()), "every component painted comes from the style after the StyleDefault fallback "+bad)
+}
+
+// checkCleanMarkCallers: a cell is marked clean when it has been painted, and
+// only then; the only callers of SetDirty(x, y, false) are the painters.
+func checkCleanMarkCallers(c *Ctx, p *Prog, rule string) {
+	callers := map[string]bool{}
+	for _, fn := range p.modFns {
+		if fn.Pkg != p.Tcell {
+			continue
+		}
+		for _, call := range callsIn(fn, func(n string, cc *ssa.CallCommon) bool { return strings.HasSuffix(n, "CellBuffer).SetDirty") }) {
+			cc := callCommon(call)
+			if len(cc.Args) == 4 {
+				if v, ok := constBool(cc.Args[3]); ok && v {
+					continue
+				}
+				callers[topFunc(fn).RelString(p.Tcell.Pkg)] = true
+			}
+		}
+	}
+	bad := ""
+	for _, k := range sortedKeys(callers) {
+		if !strings.HasSuffix(k, ").drawCell") {
+			bad += k + " marks cells clean; "
+		}
+	}
+	c.Check(bad == "" && len(callers) > 0, rule, "SetDirty(false):callers", "-", fmt.Sprintf("cells are marked clean only by the painters %v %s", sortedKeys(callers), bad))
+}
